@@ -1847,6 +1847,60 @@ def rule_R38(text, applied):
     return text
 
 
+def rule_substws(text, applied, arg=None):
+    """like `subst`, but the `~`-separated pieces of OLD may be separated by arbitrary whitespace (line breaks) in the
+    source: OLD=>NEW with `~` between the pieces of OLD, `~` = one space in NEW; `%2C` = comma."""
+    old, new = arg.replace("%2C", ",").split("=>")
+    rx = r"\s*".join(re.escape(p_) for p_ in old.split("~") if p_)
+    t, n = _sub_masked(text, rx, lambda m, s_: new.replace("~", " "))
+    applied.append(f"substws({old}=>{new})x{n}")
+    return t
+
+
+def rule_R39(text, applied):
+    """`for PAT in M.iter() {` over a resolvo Mapping (arg-free; selected by the `.iter()` receiver ending in a field that the
+    unit knows to be a Mapping) -> the definition of a `for` loop over its iterator, so that the REAL MappingIter::next (under
+    contract in unit map) is what advances it:
+      let mut mitN_ = M.iter(); loop { let mnxN_ = mitN_.next(); match mnxN_ { Some(PAT) => { BODY } None => { break; } } }"""
+    cnt = 0
+    while True:
+        m_text = mask(text)
+        m = re.search(r"\bfor\s+(\([^()]*\)|\w+)\s+in\s+((?:\w+\s*\.\s*)*\w+)\s*\.\s*iter\(\)\s*\{", m_text)
+        if not m:
+            break
+        ob = m.end() - 1
+        cb = match_close(m_text, ob)
+        pat, recv = text[m.start(1):m.end(1)], "".join(m.group(2).split())
+        head = f"let mut mit{cnt}_ = {recv}.iter(); loop {{ let mnx{cnt}_ = mit{cnt}_.next(); match mnx{cnt}_ {{ Some({pat}) => {{"
+        text = text[:m.start()] + _keep_newlines(text[m.start():ob + 1], head) + text[ob + 1:cb] + "} None => { break; } } }" + text[cb + 1:]
+        cnt += 1
+    if cnt:
+        applied.append(f"R39x{cnt}")
+    return text
+
+
+def rule_R7intoenum(text, applied):
+    """`for (I, X) in E.into_iter().enumerate() {` over an owned Vec of Copy elements -> index loop (`continue`-free body):
+    `let ownN_ = E; let mut I: usize = 0; while I < ownN_.len() { let X = ownN_[I];` ... `I += 1; }`"""
+    cnt = 0
+    while True:
+        m_text = mask(text)
+        m = re.search(r"\bfor\s*\(\s*(\w+)\s*,\s*(\w+)\s*\)\s*in\s+(\w+)\s*\.\s*into_iter\(\)\s*\.\s*enumerate\(\)\s*\{", m_text)
+        if not m:
+            break
+        i_, x_, e_ = m.group(1), m.group(2), m.group(3)
+        ob = m.end() - 1
+        cb = match_close(m_text, ob)
+        if re.search(r"\bcontinue\b", m_text[ob:cb]):
+            raise ExtractError("R7intoenum: loop body uses continue (outside the subset)")
+        head = f"let own{cnt}_ = {e_}; let mut {i_}: usize = 0; while {i_} < own{cnt}_.len() {{ let {x_} = own{cnt}_[{i_}];"
+        text = text[:m.start()] + _keep_newlines(text[m.start():m.end()], head) + text[m.end():cb] + f"{i_} += 1; " + text[cb:]
+        cnt += 1
+    if cnt:
+        applied.append(f"R7intoenumx{cnt}")
+    return text
+
+
 def rule_R8bitget(text, applied):
     """`E.get(I).as_deref().copied()` on a BitVec -> `E.vget(I)` (stub method: Some(bit) in range, None beyond)."""
     t, n = _sub_masked(text, r"\.\s*get\(([^\)]+)\)\s*\.\s*as_deref\(\)\s*\.\s*copied\(\)", lambda m, s: f".vget({m.group(1).strip()})")
@@ -2121,7 +2175,7 @@ RULES = {
     "R25": rule_R25, "R7optake": rule_R7optake,
     "R23": rule_R23, "R24": rule_R24,
     "R16push": rule_R16push, "R22": rule_R22, "R22flat": rule_R22flat,
-    "R20": rule_R20, "R21": rule_R21, "R7stackrev": rule_R7stackrev, "R7pairs": rule_R7pairs, "R7indexmap": rule_R7indexmap, "R12frozen": rule_R12frozen, "R38": rule_R38, "R9enc": rule_R9enc, "R37": rule_R37, "R36": rule_R36, "R35": rule_R35, "R16oiw": rule_R16oiw, "R9blockon": rule_R9blockon, "R34": rule_R34, "R31": rule_R31, "R30": rule_R30, "R26it": rule_R26it, "R29": rule_R29, "R7own": rule_R7own, "R28": rule_R28, "R27": rule_R27, "R8all": rule_R8all, "R16od": rule_R16od, "R10site": rule_R10site,
+    "R20": rule_R20, "R21": rule_R21, "R7stackrev": rule_R7stackrev, "R7pairs": rule_R7pairs, "R7indexmap": rule_R7indexmap, "R12frozen": rule_R12frozen, "R39": rule_R39, "R7intoenum": rule_R7intoenum, "substws": rule_substws, "R38": rule_R38, "R9enc": rule_R9enc, "R37": rule_R37, "R36": rule_R36, "R35": rule_R35, "R16oiw": rule_R16oiw, "R9blockon": rule_R9blockon, "R34": rule_R34, "R31": rule_R31, "R30": rule_R30, "R26it": rule_R26it, "R29": rule_R29, "R7own": rule_R7own, "R28": rule_R28, "R27": rule_R27, "R8all": rule_R8all, "R16od": rule_R16od, "R10site": rule_R10site,
     "R1": rule_R1, "R2": rule_R2, "R2ref": rule_R2ref, "R3": rule_R3, "R4": rule_R4, "R5": rule_R5,
     "R8max": rule_R8max, "R8cmpmax": rule_R8cmpmax, "R8resize_none": rule_R8resize_none, "R9": rule_R9, "R8position": rule_R8position, "R8rotate": rule_R8rotate, "R12refcell": rule_R12refcell,
     "R8slice": rule_R8slice, "R7iter": rule_R7iter, "R8bitget": rule_R8bitget, "R8intonext": rule_R8intonext, "R8rposition": rule_R8rposition, "R8contains": rule_R8contains, "R12cell": rule_R12cell, "R8resize_veccap": rule_R8resize_veccap, "R8collectid": rule_R8collectid, "R8index": rule_R8index, "subst": rule_subst,
